@@ -429,6 +429,118 @@ def rule_l5(F):
     return r
 
 
+def _untry(e):
+    """`x?` -> x"""
+    e = hir.peel_refs(hir.strip(e))
+    while isinstance(e, dict) and e.get("k") == "match" and str(e.get("src", "")).startswith("TryDesugar"):
+        inner = hir.strip(e["e"])
+        if inner.get("k") == "call" and inner.get("args"):
+            e = hir.peel_refs(hir.strip(inner["args"][0]))
+        else:
+            break
+    return e
+
+
+def _follow(ld, e, depth=0):
+    e = _untry(e)
+    while depth < 12 and isinstance(e, dict):
+        if e.get("k") == "mcall" and e["m"] in ("clone", "to_vec", "to_owned", "iter", "cloned", "collect", "into_iter", "as_slice", "as_ref") and not e["args"]:
+            e = _untry(e["recv"])
+        elif e.get("k") == "path" and hir.res_local(e) is not None:
+            d = ld.get(hir.res_local(e))
+            if d is None or d[1] is None or d[2] != () or (d[2] and d[2][0] == "arm"):
+                break
+            e = _untry(d[1])
+        else:
+            break
+        depth += 1
+    return e
+
+
+def rule_l6(F):
+    """A record value is a block of bytes laid out in the field order of its type.  When a record *variable* (the inferred type of a
+    literal) is unified with a concrete record type, every value of the variable's type is from then on read with the type the
+    variable is bound to - so that type must list the fields in the order of the concrete record (whose values already exist with
+    that layout), not in the order in which the literal happened to spell them."""
+    r = RuleResult("C02.L6", "a record variable unified with a concrete record is bound to a type with the concrete record's field order", floor=2)
+    bs = [F.body(p) for p in F.paths() if p.endswith("TypeChecker::unify_inner")]
+    uf = [F.body(p) for p in F.paths() if p.endswith("TypeChecker::unify_fields")]
+    if not bs or not uf:
+        r.missing("TypeChecker::unify_inner / unify_fields")
+        return r
+    b = bs[0]
+    ld = hir.LocalDefs(b.hir)
+    # unify_fields returns the fields in the order of the parameter it iterates over with `for`
+    ufb = uf[0]
+    order_param = None
+    params = [p_.get("local") for p_ in ufb.hir.get("params", []) if p_.get("k") == "bind"]
+    uld = hir.LocalDefs(ufb.hir)
+    for n in hir.walk(ufb.hir["value"]):
+        if n.get("k") == "mcall" and n["m"] == "push" and n.get("args"):
+            pass
+    for n in hir.walk(ufb.hir["value"]):
+        if n.get("k") in ("for", "loop", "match") and str(n.get("src", "")).startswith("ForLoop"):
+            it = _follow(uld, n["e"]["args"][0]) if hir.strip(n["e"]).get("k") == "call" and hir.strip(n["e"]).get("args") else None
+            if it is not None and it.get("k") == "path" and hir.res_local(it) in params:
+                order_param = params.index(hir.res_local(it)) - 1  # position among the non-self parameters
+                break
+    r.inst("unify_fields result order", {"ordered_like_parameter": order_param})
+    if order_param is None:
+        r.missing("the loop in unify_fields that fixes the order of the returned fields")
+        return r
+    n_arms = 0
+    for m in hir.nodes(b.hir["value"], "match"):
+        for arm in m["arms"]:
+            pat = arm["pat"]
+            if pat.get("k") != "ptuple" or len(pat.get("pats") or []) != 2:
+                continue
+            sides = []
+            for sp in pat["pats"]:
+                whole = None
+                inner = sp
+                if sp.get("k") == "bind" and sp.get("sub") is not None:
+                    whole = sp["local"]
+                    inner = sp["sub"]
+                name = hir.last(hir.res_def({"res": inner.get("res") or {}}) or "") if inner.get("k") == "pts" else None
+                binds = [x.get("local") for x in (inner.get("pats") or []) if x.get("k") == "bind"]
+                sides.append((name, whole, binds))
+            names = [x[0] for x in sides]
+            if sorted(str(x) for x in names) != ["Record", "RecordVar"]:
+                continue
+            n_arms += 1
+            conc = sides[names.index("Record")]
+            var = sides[names.index("RecordVar")]
+            conc_fields = conc[2][0] if conc[2] else None
+            var_fields = var[2][1] if len(var[2]) > 1 else None
+            for c in hir.nodes(arm["body"], "mcall"):
+                if c["m"] != "set" or len(c["args"]) != 2:
+                    continue
+                x = _follow(ld, c["args"][1])
+                verdict = "unknown"
+                if x.get("k") == "path" and hir.res_local(x) is not None and hir.res_local(x) == conc[1]:
+                    verdict = "the concrete record itself"
+                elif x.get("k") == "call" and hir.last(hir.call_def(x) or "") == "Record" and x.get("args"):
+                    a = _follow(ld, x["args"][0])
+                    if a.get("k") == "path" and hir.res_local(a) == conc_fields:
+                        verdict = "a record built from the concrete record's fields"
+                    elif a.get("k") == "mcall" and a["m"] == "unify_fields" and len(a["args"]) == 2:
+                        first = _follow(ld, a["args"][order_param])
+                        if first.get("k") == "path" and hir.res_local(first) == conc_fields:
+                            verdict = "unify_fields ordered like the concrete record"
+                        elif first.get("k") == "path" and hir.res_local(first) == var_fields:
+                            verdict = "BAD: unify_fields ordered like the literal"
+                r.inst("arm (%s, %s) line %s" % (names[0], names[1], arm.get("line")), {"line": c.get("line"), "variable_bound_to": verdict})
+                if verdict.startswith("BAD"):
+                    r.bad(b.path, "record variable bound to a record in the literal's field order", relfile(b.file), c.get("line"),
+                          "the record variable is bound to a record type whose fields are listed in the order of the variable's own (literal) fields instead of the concrete record's: "
+                          "values that already exist with the concrete layout are then read at the offsets of the other order (`let r = if c { {b: 7, a: 1} } else { p };` reads p.a as b)")
+                elif verdict == "unknown":
+                    r.missing("a recognised form of the type a record variable is bound to at line %s" % c.get("line"))
+    if n_arms < 2:
+        r.missing("the two (RecordVar, Record) arms of unify_inner (found %d)" % n_arms)
+    return r
+
+
 def rules(ctx):
     F = ctx["F"]
-    return [rule_l1(F), rule_l2(F), rule_l3(F), rule_l4(F), rule_l5(F)]
+    return [rule_l1(F), rule_l2(F), rule_l3(F), rule_l4(F), rule_l5(F), rule_l6(F)]
